@@ -151,7 +151,11 @@ def main(argv):
                 except Exception:
                     pass
             os._exit(EXIT_KILLED)
-        if mode == "race" and kind == "CALL" and rnd.random() < 0.3:
+        if mode == "race" and variant.startswith("hold:") and kind == "CALL" and \
+                getattr(callable_, "__name__", "") in ("replace", "rename") and is_fs_primitive(callable_, arg0):
+            # this process is held between writing its temporary file and renaming it
+            time.sleep(int(variant.split(":")[1]) / 1000.0)
+        elif mode == "race" and kind == "CALL" and rnd.random() < 0.3:
             time.sleep(rnd.random() * 0.003)
 
     started = {"on": False}
@@ -192,6 +196,8 @@ def main(argv):
         open(go_file + ".ready.%d" % os.getpid(), "w").close()
         while not os.path.exists(go_file):
             pass
+    if mode == "race" and variant.startswith("delay:"):
+        time.sleep(int(variant.split(":")[1]) / 1000.0)  # staggered start
     mon.set_events(TOOL, mon.events.CALL)
     rc = 0
     err = ""
